@@ -8,16 +8,17 @@
 
 use crate::bcodec::bencoder::BEncoder;
 use crate::bcodec::bvalue::BValue;
-use crate::bcodec::raw_finder::RawFinder;
 use crate::constants::{HASH_SIZE, PIECE_LENGTH};
 use crate::hashmap;
 use crate::Error;
-use crate::{BDecoder, DeepFinder};
+use crate::BDecoder;
 use sha1_smol;
 use std::collections::HashMap;
 use std::convert::{TryFrom, TryInto};
 use std::fs;
+use std::iter::Enumerate;
 use std::path::{Component, Path, PathBuf};
+use std::slice::Iter;
 
 /// Metainfo file (also known as .torrent; see [BEP3](https://www.bittorrent.org/beps/bep_0003.html#metainfo%20files))
 /// describe all data required to find download file/files from peer-to-peer network.
@@ -148,9 +149,9 @@ impl Metainfo {
         }
 
         let mut err = Err(Error::MetaDataMissing);
-        for val in bvalues {
+        for (index, val) in bvalues.iter().enumerate() {
             match val {
-                BValue::Dict(dict) => match Self::parse(data, &dict) {
+                BValue::Dict(dict) => match Self::parse(data, index, &dict) {
                     Ok(torrent) => return Ok(torrent),
                     Err(e) => err = Err(e),
                 },
@@ -161,7 +162,11 @@ impl Metainfo {
         err
     }
 
-    fn parse(data: &[u8], dict: &HashMap<Vec<u8>, BValue>) -> Result<Metainfo, Error> {
+    fn parse(
+        data: &[u8],
+        index: usize,
+        dict: &HashMap<Vec<u8>, BValue>,
+    ) -> Result<Metainfo, Error> {
         let length = Self::find_length(dict);
         let multi_files = Self::find_files(dict);
 
@@ -195,7 +200,7 @@ impl Metainfo {
             piece_length: Self::find_piece_length(dict)?,
             pieces: Self::find_pieces(dict)?,
             files,
-            info_hash: Self::calculate_hash(data)?,
+            info_hash: Self::calculate_hash(data, index)?,
         };
 
         Ok(metainfo)
@@ -303,14 +308,58 @@ impl Metainfo {
             .collect()
     }
 
-    fn calculate_hash(data: &[u8]) -> Result<[u8; HASH_SIZE], Error> {
-        if let Some(info) = DeepFinder::find_first("4:info", data) {
+    fn calculate_hash(data: &[u8], index: usize) -> Result<[u8; HASH_SIZE], Error> {
+        if let Some(info) = Self::raw_info(data, index) {
             let mut hasher = sha1_smol::Sha1::new();
-            hasher.update(info.as_ref());
+            hasher.update(info);
             return Ok(hasher.digest().bytes());
         }
 
         Err(Error::InfoMissing)
+    }
+
+    /// Exact bytes of the value stored under the "info" key of the dictionary that is the
+    /// `index`-th top-level value of `data` (the one the other fields are read from). Keys of
+    /// nested dictionaries and other top-level values are not considered.
+    fn raw_info(data: &[u8], index: usize) -> Option<&[u8]> {
+        let position =
+            |it: &Enumerate<Iter<u8>>| it.clone().next().map_or(data.len(), |(pos, _)| pos);
+
+        let mut it = data.iter().enumerate();
+        for _ in 0..index {
+            Self::skip_value(&mut it)?;
+        }
+
+        match it.next() {
+            Some((_, b'd')) => (),
+            _ => return None,
+        }
+
+        let mut info = None;
+        loop {
+            let key = match it.next() {
+                None | Some((_, b'e')) => break,
+                Some((pos, b)) => BDecoder::parse_byte_str(&mut it, pos, b).ok()?.0,
+            };
+            let start = position(&it);
+            Self::skip_value(&mut it)?;
+            if key == b"info" {
+                // Same as in HashMap built by decoder: last one wins
+                info = Some(&data[start..position(&it)]);
+            }
+        }
+
+        info
+    }
+
+    fn skip_value(it: &mut Enumerate<Iter<u8>>) -> Option<()> {
+        let (pos, b) = it.next()?;
+        match b {
+            b'0'..=b'9' => BDecoder::parse_byte_str(it, pos, b).ok().map(|_| ()),
+            b'i' => BDecoder::parse_int(it, pos).ok().map(|_| ()),
+            b'l' | b'd' => BDecoder::values_vector(it, true).ok().map(|_| ()),
+            _ => None,
+        }
     }
 
     /// Return URL of the tracker
